@@ -209,6 +209,25 @@ def run_property(prop, tier='quick', seed=0, out=sys.stdout):
     undecided = still
     for o in undecided:
         print(f"UNDECIDED property={prop} obligation={o['name']} ({'; '.join(str(x) for x in o['result']['log'])})", file=out)
+    # a function that left the verifier's subset (or lost its contract anchor): bounded fallback by its native replay builder,
+    # enumerating the builder's own small scope on the real code. A failure found there is a real failing input.
+    fallback_lines = []
+    still_fn = []
+    for u in undecided_fn:
+        fn = u.split(':', 1)[0]
+        path = os.path.join(rdir, 'bounded_' + re.sub(r'[^A-Za-z0-9_.-]+', '_', fn) + '.json')
+        json.dump(dict(property=prop, obligation=f"bounded:{fn}", function=fn, source=None,
+                       counterexamples=[dict(path=0, where=None, solver='bounded-fallback', model={}, solver_log=[u])], replayed=False),
+                  open(path, 'w'), indent=1)
+        ok, note = try_replay(path)
+        if ok:
+            line = f"VIOLATION property={prop} replay={path} obligation=bounded:{fn} (symbolic verification undecided: {u.split(':', 2)[-1].strip()[:80]}; found by the bounded native fallback)"
+            print(line, file=out)
+            fallback_lines.append((f"bounded:{fn}", []))
+        else:
+            still_fn.append(u)
+    undecided_fn = still_fn
+    new_violations = new_violations + fallback_lines
     for u in undecided_fn:
         print(f"UNDECIDED property={prop} {u}", file=out)
     for e in errors:
